@@ -376,12 +376,19 @@ class PrettyPrinter:
         if isinstance(value, bool):
             return str(value).upper()
 
-        if any(i in ["enum"] for i in attr_props):
-            if isinstance(value, dict) and not value:
+        if isinstance(value, dict):
+            # composites and key-value blocks are printed elsewhere, so a dictionary
+            # reaching this point (typically the empty one created by reading a
+            # missing key) has no Mapfile representation, whatever the keyword
+            if not value:
                 raise ValueError(
                     f"The property {attr} has an empty dictionary as a value"
                 )
+            raise ValueError(
+                f"The property {attr} has a dictionary without a __type__ as a value"
+            )
 
+        if any(i in ["enum"] for i in attr_props):
             if not isinstance(value, numbers.Number):
                 if attr == "compop":
                     return self.quoter.add_quotes(str(value))
